@@ -15,6 +15,8 @@ type Pool struct {
 	Vals [][]byte
 	// Big: history contains values above the token threshold => no GREATER/LESS compares
 	Big bool
+	// Mix: "" default, "txn" transaction heavy, "read" few writes
+	Mix string
 }
 
 var edgeKeys = [][]byte{
@@ -161,6 +163,10 @@ func (p *Pool) PutOp() m.Op {
 
 func (p *Pool) DelOp(top bool) m.Op {
 	k := p.AnyKey()
+	if p.Big && p.Mix == "read" {
+		// C09 histories are about reads: keep the known prev_kv size-cut finding (C01) out of them
+		return m.Op{T: "del", K: k, End: p.End(k, top), Count: p.R.Intn(2) == 0}
+	}
 	return m.Op{T: "del", K: k, End: p.End(k, top), Prev: p.R.Intn(2) == 0, Count: p.R.Intn(2) == 0}
 }
 
@@ -223,6 +229,9 @@ func (p *Pool) Txn(readonly bool) m.Cmd {
 
 // Cmd returns a random command; depth limits SEQUENCE nesting.
 func (p *Pool) Cmd(depth int) m.Cmd {
+	if p.Mix == "txn" && p.R.Intn(10) < 6 {
+		return p.Txn(false)
+	}
 	switch x := p.R.Intn(20); {
 	case x < 6:
 		return m.Cmd{T: "PUT", K: p.Key(), V: p.Val(), Prev: p.R.Intn(2) == 0}
